@@ -60,7 +60,7 @@ def run(tier, selftest):
         vlib.tool_error(f"vacuity: branches of the cascade reached: {which}, families {fams}")
     summ = run_cases(binp, cases, rep, "mc")
     d = os.path.join(vlib.scratch(), "decode_files")
-    nf = 100000 if thorough else 10000
+    nf = 500000 if thorough else 10000
     rc, lines, err = vlib.run_harness(binp, ["decode-fuzz", "--seed", vlib.seed(), "--n", nf, "--dir", d], timeout=1800)
     if rc != 0 or not lines:
         vlib.tool_error(f"decode-fuzz failed: {err[-500:]}")
